@@ -512,6 +512,13 @@ fn builtin_round(args: Vec<Rc<Object>>) -> Result<Rc<Object>, String> {
     match args[0].as_ref() {
         Object::Float(f) => {
             if let Object::Integer(n) = args[1].as_ref() {
+                if *n < 0 {
+                    return Err(String::from("precision should not be negative"));
+                }
+                if *n > 18 {
+                    // more decimal places than a double holds: nothing to round
+                    return Ok(Rc::clone(&args[0]));
+                }
                 let multiplier = 10i64.pow(*n as u32);
                 let rounded = (f * multiplier as f64).round() / multiplier as f64;
                 Ok(Rc::new(Object::Float(rounded)))
